@@ -197,6 +197,27 @@ def run(prog, chk):
             r2.violation(fn.file, w, line, "return:%s:%s" % (w, what), msg, path=["L%s" % x for x in st.trail_lines()])
         if not bad_ret:
             r2.ok("%s:returns" % w, "%d exits: END/positive results propagated%s" % (len(it.exits), ", directives mapped to CIF_OK" if w == "cif_walk" else ""))
+    # an absent handler behaves like one that answers CONTINUE
+    n_def = 0
+    for w in WALKERS:
+        fn = prog.fn(w)
+        for (b, i, r, x) in fn.eval_sites("cond"):
+            if "HANDLER_RESULT" not in (x.get("ms") or []):
+                continue
+            cp = path(strip(x.get("c"))) or ""
+            if not cp.startswith("handler->handle_"):
+                continue
+            n_def += 1
+            dv = const(x.get("else"))
+            key = "%s:default-of-%s" % (w, cp.split("->")[1])
+            if dv == CONT:
+                r2.ok(key, "CIF_TRAVERSE_CONTINUE when the handler is absent")
+            else:
+                r2.violation(fn.file, w, x.get("l"), "absent-handler-default:%s:%s" % (w, cp.split("->")[1]),
+                             "when %s is NULL the walker behaves as if a handler had answered %s instead of CIF_TRAVERSE_CONTINUE: "
+                             "leaving a callback out changes which other callbacks are delivered" % (cp, dv))
+    if n_def < 8:
+        raise Broken("only %d HANDLER_RESULT expansions found" % n_def)
     # a child's SKIP_CURRENT is consumed by the child: the parent goes on exactly as after CONTINUE
     for w in WALKERS:
         it = runs[w]
